@@ -181,10 +181,17 @@ def initial_values(ctx):
     raise AnalysisError('init_fn does not build a ParameterStats record per parameter')
   for slot, src in (('statistics', 'eps * jnp.eye(s[0])'), ('preconditioners', 'jnp.eye(s[0], s[1]) * (s[0] == s[1])')):
     st = first_star(rf[slot])
-    ok = st is not None and st.args[1].op == 'compdom' and len(st.args[1].args) == 1
+    it = None
+    if st is not None:
+      dom = st.args[1]
+      if dom.op == 'compdom' and len(dom.args) == 1:
+        it = dom.args[0]                                   # [f(s) for s in shapes]
+      elif dom.op == 'loopdom' and not (len(dom.args) > 2 and dom.args[2]) and (len(dom.args) <= 3 or is_const(dom.args[3], None)):
+        it = dom.args[1]                                   # for s in shapes: out.append(f(s))
+    ok = it is not None
     if ok:
-      s_ = ev.elem_of(st.args[1].args[0])
-      ok = 'shapes_for_preconditioners' in show(st.args[1].args[0], maxdepth=4) and cmpr.same(st.args[0], spec_term(ev, src, {'eps': eps, 's': s_}))
+      s_ = ev.elem_of(it)
+      ok = 'shapes_for_preconditioners' in show(it, maxdepth=4) and cmpr.same(st.args[0], spec_term(ev, src, {'eps': eps, 's': s_}))
     ctx.ob('C02.R7', fi.short, f'initial {slot}', ok,
            f'the initial {slot} must be `{src}` for every announced shape s (eps = matrix_epsilon); got `{show(rf[slot], maxdepth=6)[:200]}`',
            ctx.loc(fi), sample=f'{slot}[i] = {src}')
